@@ -265,13 +265,18 @@ func (a *jwtAuthenticator) getCacheTTL(key *jose.JSONWebKey) time.Duration {
 	// we cache by default using the settings in the certificate (if available)
 	// or based on ttl. Latter overwrites the settings in the certificate
 	// if it is shorter than the ttl of the certificate
-	certTTL := x.IfThenElseExec(len(key.Certificates) != 0,
-		func() time.Duration {
-			expiresIn := key.Certificates[0].NotAfter.Unix() - time.Now().Unix() - timeLeeway
+	var certTTL time.Duration
 
-			return x.IfThenElse(expiresIn > 0, time.Duration(expiresIn)*time.Second, 0)
-		},
-		func() time.Duration { return 0 })
+	if len(key.Certificates) != 0 {
+		expiresIn := key.Certificates[0].NotAfter.Unix() - time.Now().Unix() - timeLeeway
+		if expiresIn <= 0 {
+			// the certificate is about to expire. Not to be confused with the absence of a certificate,
+			// in which case the configured, respectively the default ttl is used.
+			return 0
+		}
+
+		certTTL = time.Duration(expiresIn) * time.Second
+	}
 
 	configuredTTL := x.IfThenElseExec(a.ttl != nil,
 		func() time.Duration { return *a.ttl },
